@@ -6,5 +6,7 @@ OkOnly == {[b \in 1..N |-> "ok"]}
 GenFates == [1..N -> {"ok", "genErr"}]
 GenGrowFates == [1..N -> {"ok", "genErr", "growErr"}]
 NoReaderFail == {N + 1}
-AnyReaderFail == 0..(N + 1)
+\* the reader fails after r complete blocks (the splitter sends a block when it meets the next root line or EOF,
+\* so a failure instead of EOF leaves the last block unsent: r = N cannot be produced) or never (N + 1)
+AnyReaderFail == (0..(N - 1)) \cup {N + 1}
 =============================================================================
